@@ -10,6 +10,8 @@ pub mod c06;
 pub mod c07;
 pub mod c08;
 pub mod c13;
+pub mod c14;
+pub mod c15;
 
 pub fn run(prop: &str, ctx: &mut Ctx) -> bool {
     match prop {
@@ -22,6 +24,8 @@ pub fn run(prop: &str, ctx: &mut Ctx) -> bool {
         "C07" => c07::run(ctx),
         "C08" => c08::run(ctx),
         "C13" => c13::run(ctx),
+        "C14" => c14::run(ctx),
+        "C15" => c15::run(ctx),
         _ => return false,
     }
     true
